@@ -137,5 +137,51 @@ I_C08_FaultUnlocks == IsFault =>
 
 I_C09_FaultComplete == IsFault => Judge("C09_CompleteAfterFault", Complete(F.post))
 
+(***************************************************************************)
+(* The sequential properties when a call FAILS (injected I/O error).       *)
+(* C01 / C03 / C04 / C11 speak about "rejected or failed" calls and about  *)
+(* "whatever calls are made on other pids in between"; a call that fails   *)
+(* half-way is such a call.                                                *)
+(***************************************************************************)
+BoundObj(s, p, c) == s.pref[p] = c /\ InSeq(p, s.cref[c].pids) /\ s.obj[c] = "ok"
+
+\* C04: a failed or rejected call never removes a referenced object (only delete_object(p)
+\* itself may unbind p)
+I_C04_Fault == IsFault =>
+  Judge("C04_FaultReferencedKept",
+        \A p \in Pid, c \in Cid :
+          (BoundObj(F.pre, p, c) /\ ~(F.call.op = "delete" /\ F.call.pid = p))
+             => BoundObj(F.post, p, c))
+
+\* C01: ... and every OTHER pid's bytes stay retrievable (retrieve_object was really called
+\* for them before and after: F.others)
+I_C01_Fault == IsFault =>
+  Judge("C01_FaultOthersRetrievable",
+        /\ \A p \in Pid \ {F.call.pid}, c \in Cid : BoundObj(F.pre, p, c) => BoundObj(F.post, p, c)
+        /\ \A j \in 1..Len(F.others) : F.others[j].after = F.others[j].before)
+
+\* C03: a store / tag for an already bound pid, rejected or failed, leaves the binding as it was
+I_C03_Fault == IsFault =>
+  Judge("C03_FaultBindingKept",
+        (F.call.op \in {"store", "tag"} /\ F.pre.pref[F.call.pid] \in Cid) =>
+          /\ F.res.cls # "ok"
+          /\ BindingOf(F.post, F.call.pid) = BindingOf(F.pre, F.call.pid)
+          /\ F.post.obj[F.pre.pref[F.call.pid]] = F.pre.obj[F.pre.pref[F.call.pid]])
+
+\* C11: documents of other (pid, format) pairs are never affected; a failed store_metadata
+\* does not lose the document: it is the previous or the supplied version
+DocTouches(call, p, f) ==
+  /\ call.pid = p
+  /\ \/ call.op = "delete"
+     \/ call.op = "delmeta" /\ (call.fmt = NoFmt \/ call.fmt = f)
+     \/ call.op = "putmeta" /\ EffFmt(call.fmt) = f
+I_C11_Fault == IsFault =>
+  /\ Judge("C11_FaultDocIsolation",
+           \A p \in Pid, f \in Fmt : ~DocTouches(F.call, p, f) => F.post.doc[p][f] = F.pre.doc[p][f])
+  /\ Judge("C11_FaultDocNotLost",
+           (F.call.op = "putmeta" /\ F.pre.doc[F.call.pid][EffFmt(F.call.fmt)] \in Ver) =>
+             F.post.doc[F.call.pid][EffFmt(F.call.fmt)]
+                \in {F.pre.doc[F.call.pid][EffFmt(F.call.fmt)], F.call.ver})
+
 AllJudged == PrintT("JUDGED " \o ToString(TLCGet("stats").distinct - 1) \o " OF " \o ToString(NC + NF))
 =============================================================================
